@@ -107,3 +107,14 @@ def demo_replay(*names):
                 return dict(reproduced=True, output='\n'.join(outs), cmd='replay/%s (exit %s)' % (n, rc))
         return dict(reproduced=False, output='\n'.join(outs), cmd=' '.join(names))
     return f
+
+
+def mempool_replay(g, ob, vals, res):
+    src = os.path.join(VERIF, 'replay', 'mempool_replay.c')
+    outs = []
+    for args in ([4096, 1, 200], [64, 3, 500], [8, 5, 1000], [24, 3, 400]):
+        rc, out = cvlib.native_run(src, args, timeout=120, valgrind=True)
+        outs.append('%s -> %s %s' % (args, rc, out[-300:]))
+        if rc not in (0, 'timeout', 'build-failed'):
+            return dict(reproduced=True, output='\n'.join(outs), cmd='valgrind replay/mempool_replay.c %s (exit %s; 97 = valgrind error, other non-zero = oracle/abort)' % (args, rc))
+    return dict(reproduced=False, output='\n'.join(outs), cmd='replay/mempool_replay.c under valgrind')
